@@ -230,32 +230,67 @@ structure PepVersion where
   loc : Option (List LocalSeg)
   deriving DecidableEq, Repr
 
-/-- `Version.__init__`: `none` = `InvalidVersion`. -/
-def parsePep (s0 : Str) : Option PepVersion :=
-  let s := reStrip (lowerStr s0)
-  let s := match s with
-    | 'v' :: r => r
-    | _ => s
+/-- `v?` -/
+def dropV : Str → Str
+  | 'v' :: r => r
+  | s => s
+
+/-- `(?:(?P<epoch>[0-9]+)!)?` and the first `[0-9]+` of the release:
+    epoch (0 when absent), text of the first release component, rest -/
+def headSeg (s : Str) : Option (Nat × Str × Str) :=
   let d1 := s.takeWhile isDigit
-  let r1 := s.dropWhile isDigit
   if d1.isEmpty then none else
-  let ep : Nat × Str × Str := match r1 with
-    | '!' :: r => (strToNat d1, r.takeWhile isDigit, r.dropWhile isDigit)
-    | _ => (0, d1, r1)
-  if ep.2.1.isEmpty then none else
-  let rel := relTailF ep.2.2.length ep.2.2
-  let pre : Option (Str × Nat) × Str := match letterSeg preWords rel.2 with
-    | some (p, r) => (some p, r)
-    | none => (none, rel.2)
-  let post := postSeg pre.2
-  let dev : Option Nat × Str := match letterSeg devWords post.2 with
-    | some ((_, n), r) => (some n, r)
-    | none => (none, post.2)
-  match localSeg dev.2 with
+  match s.dropWhile isDigit with
+  | '!' :: r =>
+    if (r.takeWhile isDigit).isEmpty then none
+    else some (strToNat d1, r.takeWhile isDigit, r.dropWhile isDigit)
+  | r1 => some (0, d1, r1)
+
+/-- the pre-release group -/
+def preSeg (s : Str) : Option (Str × Nat) × Str :=
+  match letterSeg preWords s with
+  | some (p, r) => (some p, r)
+  | none => (none, s)
+
+/-- the dev-release group -/
+def devSeg (s : Str) : Option Nat × Str :=
+  match letterSeg devWords s with
+  | some ((_, n), r) => (some n, r)
+  | none => (none, s)
+
+/-- VERSION_PATTERN after `^\s*v?`, up to `\s*$`, on lower-cased stripped text -/
+def parseCore (s : Str) : Option PepVersion :=
+  match headSeg s with
   | none => none
-  | some loc =>
-    some { epoch := ep.1, release := (ep.2.1 :: rel.1).map strToNat,
-           pre := pre.1, post := post.1, dev := dev.1, loc := loc }
+  | some (epoch, first, r2) =>
+    let rel := relTailF r2.length r2
+    let pre := preSeg rel.2
+    let post := postSeg pre.2
+    let dev := devSeg post.2
+    match localSeg dev.2 with
+    | none => none
+    | some loc =>
+      some { epoch := epoch, release := (first :: rel.1).map strToNat,
+             pre := pre.1, post := post.1, dev := dev.1, loc := loc }
+
+/-- `Version.__init__`: `none` = `InvalidVersion`. -/
+def parsePep (s0 : Str) : Option PepVersion := parseCore (dropV (reStrip (lowerStr s0)))
+
+/-- What `parsePep` can produce (`C16_parse_wf`): a non-empty release, a normalised pre-release
+    letter, and local parts that are ints or non-empty lower-case alphanumeric words which are
+    not all digits. -/
+def wfLocalSeg : LocalSeg → Bool
+  | .num _ => true
+  | .str s => !s.isEmpty && s.all isLocalChar && !allDigits s
+
+def wfPep (v : PepVersion) : Bool :=
+  !v.release.isEmpty &&
+  (match v.pre with
+   | none => true
+   | some (l, _) => l == "a".toList || l == "b".toList || l == "rc".toList) &&
+  (match v.loc with
+   | none => true
+   | some l => !l.isEmpty && l.all wfLocalSeg)
 
 /-- `reversed(dropwhile(lambda x: x == 0, reversed(release)))` -/
 def stripTrailingZeros (r : List Nat) : List Nat := (r.reverse.dropWhile (· == 0)).reverse
